@@ -419,32 +419,55 @@ Qed.
 Lemma rep_nil {A} (x : A) k : k <= 0 -> rep x k = [].
 Proof. intros H. unfold rep. replace (Z.to_nat k) with O by lia. reflexivity. Qed.
 
+Lemma match_cons {A B} (l : list A) (e f : B) : l <> [] -> match l with [] => e | _ :: _ => f end = f.
+Proof. destruct l; [congruence|reflexivity]. Qed.
+
+Lemma zrange_nonempty a b : a < b -> zrange a b <> [].
+Proof. intros H. rewrite zrange_cons by lia. discriminate. Qed.
+
+Lemma insert_left_wf b k :
+  bwf b -> 0 < k ->
+  insert_left b (rep SO k) =
+  Ok (mkB (n_min b - k) (n_max b) (fi_min b) (fi_max b) (gb b) (zrange (n_min b - k) (n_max b + 1)) (rep SO k ++ cells b)).
+Proof.
+  intros (Hle & Hidx & Hlen) Hk. unfold insert_left. rewrite rep_length, Hidx.
+  replace (n_min b - Z.max 0 k) with (n_min b - k) by lia.
+  rewrite <- (zrange_app (n_min b - k) (n_min b) (n_max b + 1)) by lia.
+  destruct (hd_zrange (n_min b - k) (n_max b + 1) ltac:(lia)) as (t & Ht). rewrite Ht. reflexivity.
+Qed.
+
+Lemma insert_right_wf b k :
+  bwf b -> 0 < k ->
+  insert_right b (rep SO k) =
+  Ok (mkB (n_min b) (n_max b + k) (fi_min b) (fi_max b) (gb b) (zrange (n_min b) (n_max b + k + 1)) (cells b ++ rep SO k)).
+Proof.
+  intros (Hle & Hidx & Hlen) Hk. unfold insert_right. rewrite rep_length, Hidx.
+  replace (n_max b + 1 + Z.max 0 k) with (n_max b + k + 1) by lia.
+  rewrite <- (zrange_app (n_min b) (n_max b + 1) (n_max b + k + 1)) by lia.
+  rewrite match_cons by (apply zrange_nonempty; lia).
+  rewrite last_zrange by lia. do 2 f_equal. lia.
+Qed.
+
 Lemma align_one_extended Nmin Nmax b :
   bwf b -> Nmin <= n_min b -> n_max b <= Nmax -> align_one Nmin Nmax b = Ok (extended Nmin Nmax b).
 Proof.
-  intros (Hle & Hidx & Hlen) H1 H2. unfold align_one, extended.
+  intros Hwf H1 H2. pose proof Hwf as (Hle & Hidx & Hlen). unfold align_one, extended.
   destruct (0 <? n_min b - Nmin) eqn:El.
-  - (* left insertion *)
-    unfold insert_left. rewrite rep_length, Hidx.
-    replace (n_min b - Z.max 0 (n_min b - Nmin)) with Nmin by lia.
-    rewrite <- (zrange_app Nmin (n_min b) (n_max b + 1)) by lia.
-    destruct (hd_zrange Nmin (n_max b + 1) ltac:(lia)) as (t & Ht). rewrite Ht. cbn [bind n_max n_min].
+  - rewrite (insert_left_wf b (n_min b - Nmin) Hwf) by lia. cbn [bind n_max n_min].
+    replace (n_min b - (n_min b - Nmin)) with Nmin by lia.
     destruct (0 <? Nmax - n_max b) eqn:Er.
-    + unfold insert_right. cbn [idx n_max n_min cells fi_min fi_max gb]. rewrite rep_length, <- Ht.
-      replace (n_max b + 1 + Z.max 0 (Nmax - n_max b)) with (Nmax + 1) by lia.
-      rewrite <- (zrange_app Nmin (n_max b + 1) (Nmax + 1)) by lia.
-      destruct (hd_zrange Nmin (Nmax + 1) ltac:(lia)) as (t2 & Ht2). rewrite Ht2 at 1. rewrite <- Ht2.
-      rewrite last_zrange by lia. rewrite <- app_assoc. f_equal. f_equal. lia.
-    + rewrite <- Ht. assert (Nmax = n_max b) by lia. subst Nmax.
+    + rewrite insert_right_wf; [| |lia].
+      * cbn [n_min n_max fi_min fi_max gb cells]. replace (n_max b + (Nmax - n_max b)) with Nmax by lia.
+        rewrite <- app_assoc. reflexivity.
+      * unfold bwf. cbn [n_min n_max idx cells]. repeat split; try lia.
+        rewrite app_length, Nat2Z.inj_add, rep_length. lia.
+    + assert (Nmax = n_max b) by lia. subst Nmax.
       rewrite (rep_nil SO (n_max b - n_max b)) by lia. rewrite app_nil_r. reflexivity.
   - cbn [bind]. assert (Nmin = n_min b) by lia. subst Nmin. rewrite (rep_nil SO (n_min b - n_min b)) by lia.
     cbn [app].
     destruct (0 <? Nmax - n_max b) eqn:Er.
-    + unfold insert_right. rewrite rep_length, Hidx.
-      replace (n_max b + 1 + Z.max 0 (Nmax - n_max b)) with (Nmax + 1) by lia.
-      rewrite <- (zrange_app (n_min b) (n_max b + 1) (Nmax + 1)) by lia.
-      destruct (hd_zrange (n_min b) (Nmax + 1) ltac:(lia)) as (t2 & Ht2). rewrite Ht2 at 1. rewrite <- Ht2.
-      rewrite last_zrange by lia. f_equal. f_equal. lia.
+    + rewrite (insert_right_wf b (Nmax - n_max b) Hwf) by lia.
+      replace (n_max b + (Nmax - n_max b)) with Nmax by lia. reflexivity.
     + assert (Nmax = n_max b) by lia. subst Nmax. rewrite (rep_nil SO (n_max b - n_max b)) by lia.
       rewrite app_nil_r, <- Hidx. destruct b; reflexivity.
 Qed.
